@@ -280,10 +280,22 @@ def c01(W, replay=None):
                         scen += redis_cmd_variants(sc, 6 if thorough else 3)
         scen += attacker_family(W, 400 if thorough else 120)
         scen += random_histories(W, 600 if thorough else 60, faults=True)
+        scen += parallel_family(W, 200 if thorough else 20)
     return sys_pipeline("C01", W, scen, None, [
         "the ID-token expiry and signature ground truth comes from the simulated identity provider",
         "one check runs at a time between gates (store, token endpoint, key lookup); real parallelism inside a store call is C12's subject",
     ], replay=replay)
+
+
+def parallel_family(W, n, flows=8):
+    """Several browsers logging in truly in parallel (no gates): what only real parallelism inside a gate-free region shows."""
+    res = []
+    ans = {"mode": "honest", "rt": True, "expiresIn": 300, "idLife": 300}
+    for i in range(n):
+        st = ("memory", "redis")[i % 2]
+        steps = [{"op": "parallel", "d": flows, "ans": ans}, {"op": "parallel", "d": flows, "ans": ans}]
+        res.append({"id": "parallel/%s/%d" % (st, i), "cfg": {"filters": [dict(F1, store=st)]}, "steps": steps, "tags": ["parallel"]})
+    return res
 
 
 def attacker_family(W, n):
@@ -483,7 +495,7 @@ def c04(W, replay=None):
     scen = []
     if not replay:
         design_mc(W, "c04-design", ["ExchangeBound", "TokensFromOwnLogin"], Kinds='{"app","callback"}', MaxCode=3 if W.tier == "thorough" else 2)
-        scen = family(W, "C04") + attacker_family(W, 600 if W.tier == "thorough" else 150)
+        scen = family(W, "C04") + attacker_family(W, 600 if W.tier == "thorough" else 150) + parallel_family(W, 400 if W.tier == "thorough" else 40)
     return sys_pipeline("C04", W, scen, None, ASSUME_SYS + ["the simulated token endpoint logs exactly what it was sent and is strict (RFC 6749/7636)"], replay=replay)
 
 
